@@ -89,9 +89,11 @@ def run_guarded(prog, vec, n, p, real, guards, ign=False, sites=False):
             res = H.branching.if_then_else(c, other, lambda: _pick(body(), operands))
         elif real == "repeat":
             def dead():
+                # a raise of the dead body is judged by the false-guard realisations; here the program goes
+                # on (as after a user's try/except) and the live repetition is what is compared
                 try:
                     body()
-                except NotASecret:
+                except Exception:  # noqa: BLE001
                     pass
             rt.guarded(B.PrivValBool(0))(dead)()
             res = rt.guarded(B.PrivValBool(1))(body)()
